@@ -91,7 +91,9 @@ class Defective:
         sigb = text(sig, [(63, f('signature'), 'f' if sig[63] != 'f' else '0')])
         cred_s = AKID + '/' + SCOPE
         i0 = len(AKID) + 1
+        # arity: too few parts (last '/' -> '_') or too many ('-' of the region -> '/'); both together give five parts again, with a foreign scope
         subs = [(cred_s.rindex('/'), f('arity'), '_'),
+                (cred_s.index('us-east-1') + 2, f('arity_more'), '/'),
                 (i0 + 7, f('scope_date'), '9' if cred_s[i0 + 7] != '9' else '8'),
                 (cred_s.index('us-east-1') + 8, f('scope_region'), '2'),
                 (cred_s.index('/service/') + 7, f('scope_service'), 'f'),
@@ -167,15 +169,23 @@ class Defective:
         if name == 'missing':
             names = ['missing_credential', 'missing_signature', 'missing_signedheaders', 'missing_date']
             return zor(*[zb(f[n]) for n in names if f.get(n, False) is not False])
+        few, more = f.get('arity', False), f.get('arity_more', False)
         if name == 'scope':
-            return zor(*[zb(f[n]) for n in ('scope_date', 'scope_region', 'scope_service', 'scope_term') if f.get(n, False) is not False])
+            both = zand(zb(few), zb(more)) if (few is not False and more is not False) else False
+            return zor(*([zb(f[n]) for n in ('scope_date', 'scope_region', 'scope_service', 'scope_term') if f.get(n, False) is not False] + [both]))
+        if name == 'arity':
+            if few is False and more is False:
+                return False
+            if few is False or more is False:
+                return zb(few if more is False else more)
+            return znot(zb(few) == zb(more))
         v = f.get(name, False)
         return zb(v) if v is not False else False
 
 
 def flag_names(carrier):
     names = ['path', 'query', 'algorithm', 'missing_credential', 'missing_signature', 'missing_signedheaders', 'host', 'required', 'date',
-             'expired', 'future', 'arity', 'scope_date', 'scope_region', 'scope_service', 'scope_term', 'provider', 'signature']
+             'expired', 'future', 'arity', 'arity_more', 'scope_date', 'scope_region', 'scope_service', 'scope_term', 'provider', 'signature']
     if carrier == 'header':
         names.insert(3, 'syntax')
     if carrier == 'query':
